@@ -630,6 +630,7 @@ Proof.
   - cbn. repeat split; assumption.
   - cbn. repeat split; assumption.
   - cbn. repeat split; assumption.
+  - cbn. repeat split; assumption.
   - (* VipAlloc *)
     pose proof (vip_alloc_outcome c o picked (s_vips s)) as Ha.
     destruct (vip_alloc c o picked (s_vips s)) as [r t] eqn:E. cbn in Ha. cbn.
